@@ -72,6 +72,28 @@ def _guard_chain(body):
     return chain, body[-1].value
 
 
+def _guard_return_nf(body):
+    """Body without returns, equivalent as a statement: top-level ``if c: return`` guards wrap the rest; None if a return sits elsewhere."""
+    out = []
+    for i, st in enumerate(body):
+        if isinstance(st, ast.Return):
+            if any(isinstance(x, ast.Return) for s2 in body[i + 1:] for x in ast.walk(s2)):
+                return None
+            return out      # a final bare return; anything after it is dead
+        if isinstance(st, ast.If) and not st.orelse and len(st.body) == 1 and isinstance(st.body[0], ast.Return):
+            rest = _guard_return_nf(body[i + 1:])
+            if rest is None:
+                return None
+            if rest:
+                test = st.test.operand if isinstance(st.test, ast.UnaryOp) and isinstance(st.test.op, ast.Not) else ast.UnaryOp(op=ast.Not(), operand=st.test)
+                out.append(ast.If(test=test, body=rest, orelse=[]))
+            return out
+        if any(isinstance(x, ast.Return) for x in ast.walk(st) if not isinstance(x, FUNC_TYPES)):
+            return None
+        out.append(st)
+    return out
+
+
 def _helper_expr(fn):
     """An expression equivalent to calling the helper, or None."""
     body = [s for s in fn.body if not _is_docstring(s)]
@@ -209,6 +231,17 @@ def inline_new_helpers(mod, pinned):
                 changed = True
                 count += 1
                 break
+            # (1b) statement call of a helper whose only returns are bare top-level guard returns: if c: return ; rest  ==  if not c: rest
+            if isinstance(st, ast.Expr) and st.value is call and rets and not [r for r in rets if r.value is not None and not (isinstance(r.value, ast.Constant) and r.value.value is None)]:
+                nf = _guard_return_nf(body)
+                if nf is not None:
+                    new_stmts = _clone_stmts(nf) or [ast.Pass()]
+                    new_stmts = [_Subst(binding).visit(s) for s in new_stmts]
+                    _place(new_stmts, st)
+                    lst[i:i + 1] = new_stmts
+                    changed = True
+                    count += 1
+                    break
             # (2) helper equivalent to an expression
             expr = _helper_expr(helper)
             if expr is not None:
@@ -229,6 +262,17 @@ def inline_new_helpers(mod, pinned):
                     st.value = val
                 _place(pre + [val], st)
                 lst[i:i] = pre
+                changed = True
+                count += 1
+                break
+            # (4) 'return helper(...)': the helper's returns are the host's returns, whatever its shape
+            if isinstance(st, ast.Return) and st.value is call and not any(isinstance(x, (ast.Yield, ast.YieldFrom)) for x in _own_stmt_nodes(helper)):
+                from .model import terminates
+                new_stmts = [_Subst(binding).visit(s) for s in _clone_stmts(body)]
+                if not terminates(new_stmts):
+                    new_stmts.append(ast.Return(value=ast.Constant(value=None)))
+                _place(new_stmts, st)
+                lst[i:i + 1] = new_stmts
                 changed = True
                 count += 1
                 break
